@@ -24,7 +24,7 @@ ASSUMPTIONS = [
     "q=+1 for K/R, -1 for D/E, 0 otherwise; agreement judged to 1e-9 relative + 1e-12 absolute",
     "anchors: SCD(sv1=(EK)25) = -0.41 and SCD(sv30=E25K25) = -27.84 as published by Sawle & Ghosh (2 decimals)",
 ]
-REQUIRED = {"all": ["fewer_than_two_charges", "charged_first_residue", "charged_last_residue", "long_repetitive",
+REQUIRED = {"all": ["salted_objects", "fewer_than_two_charges", "charged_first_residue", "charged_last_residue", "long_repetitive",
                     "after_other_queries", "anchors", "longer_than_1000", "second_calls"]}
 LP = {"quick": 10, "thorough": 12}
 NRANDOM = {"quick": 500, "thorough": 5000}
